@@ -43,6 +43,7 @@ def reopenAt (log : List (List Nat)) (lo bound : Nat) : List World :=
 def wstep (w : World) : Op → Ans → List World
   | .append b, .ok => [{ w with log := w.log ++ [b] }]
   | .append _, .full => [w]                       -- rejected: nothing changes
+  | .append _, .err => [w]                        -- an append that returns an error changes nothing either
   | .cur, .val y => if w.log[w.cur]? = some y then [w] else []
   | .cur, .eof => if w.cur = w.log.length then [w] else []
   | .adv, .ok => [if w.cur < w.log.length then w.advBy 1 else w]
